@@ -271,6 +271,23 @@ def s_reference(kinds):
     return out, i
 
 
+def _dropped_line(line):
+    """None, or what went wrong when `line` + newline + 'int a;' is lexed: the directive must vanish and everything else stay"""
+    from cxxheaderparser.lexer import LexerTokenStream, LexError
+
+    try:
+        ls = LexerTokenStream("f", line + "\nint a;\n")
+        out = []
+        while True:
+            t = ls.token_eof_ok()
+            if t is None:
+                break
+            out.append(t.value)
+    except LexError as e:
+        return f"LexError: {e}"
+    return None if out == ["int", "a", ";"] else f"tokens {out}"
+
+
 def s_judge(kinds):
     from collections import deque
     from cxxheaderparser.lexer import LexerTokenStream
@@ -547,6 +564,17 @@ def run(tier):
         res = chrun.run(__name__, "h_fill", shards, timeout=(150 if tier == "quick" else 1200), globs=g, pool=pool)
         chrun.record(ck, res, "layer S: _fill_tokbuf vs reference over all raw token strings", bound=f"<= {g['S_MAXTOK']} tokens over {len(S_KINDS)} kinds")
         globals()["S_MAXTOK"] = g["S_MAXTOK"]
+        # directive lines the statement lists as dropped: every spelling of #warning and of the two line-marker forms vanishes, the rest of the text stays
+        drop_bad = []
+        for line in ("#warning", "#warning x", "#warning\tx", '#warning"m"', "#warning x \\", '#line 7 "f.h"', '# 7 "f.h" 2', "#\tline 7 \"f.h\""):
+            got = _dropped_line(line)
+            ck.traces += 1
+            if got is not None:
+                drop_bad.append((line, got))
+        ck.sub("directive lines that the lexer drops (#warning in every spelling, #line / # N markers): nothing but the line disappears", "replay", "holds" if not drop_bad else "flagged", lines=8)
+        for line, got in drop_bad[:3]:
+            body = ("from vf.props import c08\n" f"got = c08._dropped_line({line!r})\nprint(got)\nsys.exit(1 if got else 0)\n")
+            ck.violation(f"directive line {line!r}: {got}", ck.write_replay(body), key=dict(kind="dropped-line"))
         # user-defined-literal fusion for every literal class (the enumeration above uses two representatives)
         udl_bad = []
         for ty in REF_UDL_TYPES:
